@@ -1,6 +1,168 @@
 import NpsVerif.Model.RunLength
-namespace Props.C14
+import NpsVerif.Proofs.RLBasic
+import NpsVerif.Proofs.RLCodec
+import NpsVerif.Proofs.RLClean
+/-!
+# C14: run-length encode / decode
+
+`decode` is the specification.  Two of the nine target statements (`C14_decode_encode`,
+`C14_roundtrip`) are FALSE without a hypothesis on `ne` (see `C14_decode_encode_counterexample`,
+`C14_roundtrip_counterexample`): if `ne` calls two different neighbouring cells "not different"
+(e.g. `0.0` and `-0.0`), the encoder merges them into one run and the decoder returns the first cell
+for both.  They are stated here with the hypothesis that neighbouring cells of `a` which `ne` does
+not separate are identical; `C14_decode_encode_general` says what is computed for an arbitrary `ne`.
+The other seven statements are exactly as given.
+-/
 open Model Model.RLA
-/-- sanity instance; the universally quantified theorems are added as they are proved -/
+
+namespace Props.C14
+variable {α : Type}
+
+/-- sanity instance -/
 theorem decode_example : (RLA.mk [0, 2, 5, 6] [7, 8, 9]).decode = [7, 7, 8, 8, 8, 9] := by decide
+
+/-- the unrestricted statement `∀ ne a, (fromArray ne a).decode = a` fails -/
+theorem C14_decode_encode_counterexample :
+    (fromArray (fun (_ _ : Nat) => false) [1, 2]).decode = [1, 1] ∧
+    ¬ (∀ (ne : Nat → Nat → Bool) (a : List Nat), (fromArray ne a).decode = a) := by
+  refine ⟨by decide, fun h => absurd (h (fun _ _ => false) [1, 2]) (by decide)⟩
+
+/-- for an ARBITRARY `ne`: decoding the encoding replaces every cell by the first cell of its
+maximal chain of `ne`-false neighbours (`Proofs.RL.smear`) -/
+theorem C14_decode_encode_general (ne : α → α → Bool) (a : List α) :
+    (fromArray ne a).decode = Proofs.RL.smear ne a :=
+  Proofs.RL.decode_fromArray ne a
+
+/-- pointwise form of `C14_decode_encode_general`: cell `i` of the decoded encoding is `a[s]`, where
+`s ≤ i` starts the maximal chain of `ne`-false neighbour pairs ending at `i` -/
+theorem C14_decode_encode_pointwise (ne : α → α → Bool) (a : List α) (i : Nat) (hi : i < a.length) :
+    ∃ s, s ≤ i ∧ (fromArray ne a).decode[i]? = a[s]? ∧
+      (∀ j u v, s ≤ j → j < i → a[j]? = some u → a[j + 1]? = some v → ne u v = false) ∧
+      (s = 0 ∨ ∃ u v, a[s - 1]? = some u ∧ a[s]? = some v ∧ ne u v = true) := by
+  rw [C14_decode_encode_general]
+  exact Proofs.RL.smear_getElem? ne a i hi
+
+/-- encoding then decoding returns the array, provided neighbouring cells that `ne` does not
+separate are identical (`ne` need not be irreflexive: NaN ≠ NaN is fine) -/
+theorem C14_decode_encode (ne : α → α → Bool) (a : List α)
+    (hne : ∀ i x y, a[i]? = some x → a[i+1]? = some y → ne x y = false → x = y) :
+    (fromArray ne a).decode = a := by
+  rw [Proofs.RL.decode_fromArray]
+  exact Proofs.RL.smear_eq_self ne a ((Proofs.RL.adjAll_iff_getElem? _ a).mpr hne)
+
+theorem C14_decode_encode_of_eq (ne : α → α → Bool) (hne : ∀ x y, ne x y = false → x = y)
+    (a : List α) : (fromArray ne a).decode = a :=
+  C14_decode_encode ne a (fun _ x y _ _ h => hne x y h)
+
+/-- the encoder's output satisfies the constructor's invariants -/
+theorem C14_encode_valid (ne : α → α → Bool) (a : List α) : (fromArray ne a).Valid :=
+  Proofs.RL.fromArray_valid ne a
+
+/-- length / size -/
+theorem C14_len (r : RLA α) (h : r.Valid) : r.len = r.decode.length :=
+  Proofs.RL.len_eq_decode_length r h
+
+theorem C14_encode_len (ne : α → α → Bool) (a : List α) : (fromArray ne a).len = a.length :=
+  Proofs.RL.fromArray_len ne a
+
+/-- the XOR-scatter + prefix-XOR decoder equals `decode` on every valid run-length array over any
+XOR-like type of bit patterns -/
+theorem C14_toArray_eq_decode [XorLike α] (r : RLA α) (h : r.Valid) : r.toArray = r.decode :=
+  Proofs.RL.toArray_eq_decode r h
+
+/-- the unrestricted round-trip statement fails -/
+theorem C14_roundtrip_counterexample :
+    (fromArray (fun (_ _ : Nat) => false) [1, 2]).toArray = [1, 1] ∧
+    ¬ (∀ (ne : Nat → Nat → Bool) (a : List Nat), (fromArray ne a).toArray = a) := by
+  refine ⟨by decide, fun h => absurd (h (fun _ _ => false) [1, 2]) (by decide)⟩
+
+/-- round trip through the bitwise decoder, arbitrary `ne` -/
+theorem C14_roundtrip_general [XorLike α] (ne : α → α → Bool) (a : List α) :
+    (fromArray ne a).toArray = Proofs.RL.smear ne a := by
+  rw [C14_toArray_eq_decode _ (C14_encode_valid ne a), C14_decode_encode_general]
+
+/-- round trip through the bitwise decoder (same hypothesis as `C14_decode_encode`) -/
+theorem C14_roundtrip [XorLike α] (ne : α → α → Bool) (a : List α)
+    (hne : ∀ i x y, a[i]? = some x → a[i+1]? = some y → ne x y = false → x = y) :
+    (fromArray ne a).toArray = a := by
+  rw [C14_toArray_eq_decode _ (C14_encode_valid ne a), C14_decode_encode ne a hne]
+
+theorem C14_roundtrip_of_eq [XorLike α] (ne : α → α → Bool) (hne : ∀ x y, ne x y = false → x = y)
+    (a : List α) : (fromArray ne a).toArray = a :=
+  C14_roundtrip ne a (fun _ x y _ _ h => hne x y h)
+
+/-- canonical: when `ne` is (the negation of) an equality test `eq`, no two adjacent runs of the
+encoding have `eq`-equal values -/
+theorem C14_encode_canonical (ne eq : α → α → Bool) (hne : ∀ x y, ne x y = !eq x y)
+    (heq : ∀ x y, eq x y = true → x = y) (a : List α) :
+    ∀ i, ∀ x y, (fromArray ne a).values[i]? = some x → (fromArray ne a).values[i+1]? = some y → eq x y = false := by
+  cases a with
+  | nil => intro i x y hx; simp [Proofs.RL.fromArray_nil] at hx
+  | cons x0 xs =>
+    rw [Proofs.RL.fromArray_cons]
+    exact (Proofs.RL.adjAll_iff_getElem? _ _).mp (Proofs.RL.enc_canonical ne eq hne heq x0 xs)
+
+/-- the clean-up helpers keep `decode` and establish their part of the canonical form -/
+theorem C14_removeEmpty_decode (ev : List Nat) (vs : List α) (h : ev.length = vs.length + 1)
+    (hmono : ev.Pairwise (· ≤ ·)) :
+    (RLA.mk (removeEmpty ev vs).1 (removeEmpty ev vs).2).decode = (RLA.mk ev vs).decode ∧
+    (removeEmpty ev vs).1.length = (removeEmpty ev vs).2.length + 1 ∧
+    strictInc (removeEmpty ev vs).1 = true :=
+  Proofs.RL.removeEmpty_decode ev vs h hmono
+
+theorem C14_joinRuns_decode (eq : α → α → Bool) (heq : ∀ x y, eq x y = true → x = y) (r : RLA α) (h : r.Valid) :
+    (RLA.mk (joinRuns eq r.events r.values).1 (joinRuns eq r.events r.values).2).decode = r.decode ∧
+    (RLA.mk (joinRuns eq r.events r.values).1 (joinRuns eq r.events r.values).2).Valid :=
+  Proofs.RL.joinRuns_decode eq heq r h
+
+/-! ## Non-vacuity instances (all by `decide`) -/
+
+/-- numpy `!=` on a type with a self-unequal value (7 plays NaN) -/
+def nanNe (x y : Nat) : Bool := x != y || x == 7
+
+-- the hypotheses of the corrected theorems are satisfiable, including by a reflexive `ne`
+example : ∀ x y, nanNe x y = false → x = y := by
+  intro x y h; simp [nanNe] at h; exact h.1
+example (a : List Nat) : (fromArray nanNe a).decode = a :=
+  C14_decode_encode_of_eq nanNe (by intro x y h; simp [nanNe] at h; exact h.1) a
+example (a : List Nat) : (fromArray nanNe a).toArray = a :=
+  C14_roundtrip_of_eq nanNe (by intro x y h; simp [nanNe] at h; exact h.1) a
+
+-- empty array
+example : fromArray (fun (x y : Nat) => x != y) [] = ⟨[0], []⟩ := by decide
+example : (fromArray (fun (x y : Nat) => x != y) []).toArray = [] := by decide
+-- all-equal array: one run
+example : fromArray (fun (x y : Nat) => x != y) [5, 5, 5] = ⟨[0, 3], [5]⟩ := by decide
+example : (fromArray (fun (x y : Nat) => x != y) [5, 5, 5]).decode = [5, 5, 5] := by decide
+example : (fromArray (fun (x y : Nat) => x != y) [5, 5, 5]).toArray = [5, 5, 5] := by decide
+example : (fromArray (fun (x y : Nat) => x != y) [5, 5, 5]).Valid := by unfold Valid; decide
+-- all-different array: one run per cell
+example : fromArray (fun (x y : Nat) => x != y) [1, 2, 3] = ⟨[0, 1, 2, 3], [1, 2, 3]⟩ := by decide
+example : (fromArray (fun (x y : Nat) => x != y) [1, 2, 3]).toArray = [1, 2, 3] := by decide
+example : (fromArray (fun (x y : Nat) => x != y) [1, 2, 3]).len = 3 := by decide
+-- single element
+example : fromArray (fun (x y : Nat) => x != y) [4] = ⟨[0, 1], [4]⟩ := by decide
+example : (fromArray (fun (x y : Nat) => x != y) [4]).toArray = [4] := by decide
+-- NaN-like value: 7 differs from itself, so two neighbouring 7s are two runs; round trip still exact
+example : fromArray nanNe [7, 7, 3, 3, 7] = ⟨[0, 1, 2, 4, 5], [7, 7, 3, 7]⟩ := by decide
+example : (fromArray nanNe [7, 7, 3, 3, 7]).decode = [7, 7, 3, 3, 7] := by decide
+example : (fromArray nanNe [7, 7, 3, 3, 7]).toArray = [7, 7, 3, 3, 7] := by decide
+example : (fromArray nanNe [7, 7, 3, 3, 7]).Valid := by unfold Valid; decide
+-- Bool bit patterns
+example : (fromArray (fun (x y : Bool) => x != y) [true, true, false, true]).toArray
+    = [true, true, false, true] := by decide
+-- a `ne` that merges different cells: the general form describes the (lossy) result
+example : Proofs.RL.smear (fun (x y : Nat) => x / 2 != y / 2) [2, 3, 4, 5, 2] = [2, 2, 4, 4, 2] := by decide
+example : (fromArray (fun (x y : Nat) => x / 2 != y / 2) [2, 3, 4, 5, 2]).decode = [2, 2, 4, 4, 2] := by decide
+-- the canonical-form conclusion is not vacuous: there are adjacent run values
+example : (fromArray (fun (x y : Nat) => x != y) [1, 1, 2]).values = [1, 2] := by decide
+-- the XOR decoder on a hand-written valid array
+example : (RLA.mk [0, 2, 5, 6] [7, 8, 9]).toArray = [7, 7, 8, 8, 8, 9] := by decide
+example : (RLA.mk [0, 2, 5, 6] [7, 8, 9]).len = 6 := by decide
+-- clean-up helpers: empty runs removed / equal neighbours joined
+example : removeEmpty [0, 2, 2, 5, 5] [1, 2, 3, 4] = ([0, 2, 5], [1, 3]) := by decide
+example : (RLA.mk [0, 2, 2, 5, 5] [1, 2, 3, 4]).decode = (RLA.mk [0, 2, 5] [1, 3]).decode := by decide
+example : joinRuns (fun (x y : Nat) => x == y) [0, 2, 3, 5, 6] [1, 1, 2, 2] = ([0, 3, 6], [1, 2]) := by decide
+example : (RLA.mk [0, 2, 3, 5, 6] [1, 1, 2, 2]).decode = (RLA.mk [0, 3, 6] [1, 2]).decode := by decide
+
 end Props.C14
